@@ -588,8 +588,12 @@ class WorldGen:
             a0 = r.choice([10, 20, 30, 45, 60, 80, 90, 100])
             a1 = a0 if r.random() < 0.5 else r.choice([10, 30, 45, 60, 70, 90])
             t0 = r.choice([50e3, 100e3, 150e3])
-            sg = {"length": r.choice([100e3, 200e3, 300e3, 150e3]),
-                  "thickness": [t0] if r.random() < 0.5 else [t0, r.choice([50e3, 100e3, 200e3])],
+            # rarely: a section of zero thickness (the feature returns before computing anything there) or a segment of zero length (skipped by the plane walk)
+            u = r.random()
+            if u < 0.03:
+                t0 = 0
+            sg = {"length": 0 if 0.03 <= u < 0.05 and nseg > 1 else r.choice([100e3, 200e3, 300e3, 150e3]),
+                  "thickness": [t0] if r.random() < 0.5 or t0 == 0 else [t0, r.choice([50e3, 100e3, 200e3])],
                   "angle": [a0] if a0 == a1 and r.random() < 0.7 else [a0, a1]}
             if r.random() < 0.3 and kind != "fault":
                 tt = r.choice([0, 10e3, -10e3, 25e3, -150e3, -300e3])
